@@ -58,10 +58,13 @@ def instances(tier, seed):
 
 
 # ---------------------------------------------------------------------------------------------------------------------
+NAMES = ('params', 'ops', 'latency')     # deliberately not in alphabetical order (the README's own pair is 'params', 'ops')
+
+
 def concrete_duccio(rec):
     """plain-torch re-execution. rec: costs (list of lists per call), targets, strengths|task_loss, epochs (per call), n"""
     from plinio.regularizers import DUCCIO
-    names = [f'm{i}' for i in range(len(rec['targets']))]
+    names = list(NAMES[:len(rec['targets'])])
     targets = {n: torch.tensor(float(Fraction(t))) for n, t in zip(names, rec['targets'])}
     if rec.get('strengths') is not None:
         d = DUCCIO(targets, final_strengths=tuple(torch.tensor(float(Fraction(s))) for s in rec['strengths']))
@@ -97,6 +100,10 @@ def replay(rec):
         return (abs(v) <= 1e-12) != allbelow, f'value {v}, all costs at/below target: {allbelow}'
     if obs == 'increasing':
         return vals[-1] <= vals[-2] + 0 * tol, f'values {vals} (larger excess in the last call)'
+    if obs in ('full_strength_value', 'initial_strength_value'):
+        st_ = [float(Fraction(x)) for x in rec['strengths']]
+        want = sum(si * max(0.0, c - t) for si, c, t in zip(st_, last_costs, tg)) / (100.0 if obs.startswith('initial') else 1.0)
+        return abs(v - want) > 1e-4 * max(1.0, abs(want)), f'value {v}, sum of own-strength x excess {want}'
     if obs.startswith('sched'):
         s = float(Fraction(rec['strengths'][0]))
         e, n = int(rec['epochs'][-1]), int(rec['n'])
@@ -194,7 +201,7 @@ def _run_base_pit(res, p, tier, selftest):
 
 def _mk_duccio(ex, k, derived=False):
     from plinio.regularizers import DUCCIO
-    names = [f'm{i}' for i in range(k)]
+    names = list(NAMES[:k])
     t = [z3.Real(f't{i}') for i in range(k)]
     targets = {n: _t(ti) for n, ti in zip(names, t)}
     if derived:
@@ -242,6 +249,12 @@ def _run_value(res, p, tier, selftest):
             allbelow = z3.And([ci <= ti for ci, ti in zip(c, t)])
             checks = [('negative', st.e_lt(v1, 0), 1), ('zero_iff', z3.Xor(st.lift(st.e_eq(v1, 0), 'b'), allbelow), 1),
                       ('increasing', z3.And(c0b > c[0], c[0] >= t[0], st.lift(st.e_le(v2, v1), 'b')), 2)]
+            # each metric is weighted by ITS OWN strength: the full one from half the schedule on, 1% of it at epoch 0
+            relu = [z3.If(ci > ti, ci - ti, 0) for ci, ti in zip(c, t)]
+            if 2 * e >= n:
+                checks.append(('full_strength_value', st.e_ne(v1, z3.Sum([si * ri for si, ri in zip(s, relu)])), 1))
+            elif e == 0:
+                checks.append(('initial_strength_value', st.e_ne(v1, z3.Sum([si * ri / 100 for si, ri in zip(s, relu)])), 1))
             if selftest:
                 checks.append(('increasing', z3.And(c0b > c[0], st.lift(st.e_le(v2, v1), 'b')), 2))
             checks = [('nonfinite', g, 1) for g in guards] + checks
